@@ -80,6 +80,16 @@ def c03(tr, st, c):
     pre, post = ph["pre"]["econ"], ph["post"]["econ"]
     d, p, stock = fresh_total(pre), post["prod"], pre["stock"]
     cap = capacity(c, pre)
+    t = st["t"]
+    # the demand bound the production module reads is the model's cached total: it has to be the demand actually
+    # addressed to the industry (row sums of the demand matrix) when production is decided
+    if pre.get("dTot") is not None:
+        ref = float(np.max(np.abs(d))) if d.size else 0.0
+        gap = np.abs(np.asarray(pre["dTot"], dtype=float) - d)
+        if (gap > 1e-9 * ref + 1e-300).any():
+            i = int(np.argmax(gap))
+            out.append(viol("C03", t, "the total demand bounding production is not the demand addressed to the industry (stale total)",
+                            cell=i, total_used=float(pre["dTot"][i]), demand_matrix_row_sum=float(d[i])))
     xo = np.fmin(d, cap)
     sc = np.maximum(np.abs(xo), 1e-300)
     t = st["t"]
